@@ -11,4 +11,5 @@ EXES = [
     {"name": "expr", "sources": ["harness/expr.cpp"]},
     {"name": "races", "sources": ["harness/races.cpp"]},
     {"name": "bulk", "sources": ["harness/bulk.cpp"]},
+    {"name": "streams", "sources": ["harness/streams.cpp"]},
 ]
